@@ -159,6 +159,40 @@ def build(cfg, upto=None):
     return dec, subs
 
 
+def must_accept(cfg):
+    """Does the window set fit?  Plain address arithmetic after the documented allocation rule (C02): a window of a map with
+    w address bits takes 2**max(w, alignment) addresses at the next multiple of that size (after an optional align_to), or
+    sits at its explicit address.  Only claimed for the simple cases (ratio-1 windows, no explicit addresses colliding):
+    anything else returns False = no claim."""
+    try:
+        top = 1 << max(1, cfg["aw"] + log2(cfg["dw"] // cfg["g"]))
+        cur, taken = 0, []
+        for sc in cfg["subs"]:
+            sdw = sc.get("sdw", cfg["dw"])
+            sg = sc.get("sg", sdw if sc["sparse"] else cfg["g"])
+            if sg != cfg["g"] and not sc["sparse"]:
+                return False                      # dense window with a ratio: not claimed here
+            w = max(1, sc["aw"] + log2(sdw // sg))
+            if sc.get("align_to") is not None:
+                a = max(sc["align_to"], cfg["align"])
+                cur = -(-cur // (1 << a)) * (1 << a)
+            al = max(cfg["align"], w)
+            size = 1 << al
+            if sc["addr"] is not None:
+                start = sc["addr"]
+                if start % (1 << cfg["align"]):
+                    return False
+            else:
+                start = -(-cur // size) * size
+            end = start + size
+            if end > top or any(s < end and start < e for s, e in taken):
+                return False
+            taken.append((start, end)); cur = end
+        return True
+    except Exception:
+        return False
+
+
 def check_config(ctx, cfg):
     dec, subs = build(cfg)
     probes = []
@@ -256,7 +290,7 @@ def main(run: Run):
     run.assumptions.append("response_relay assumes unselected subordinates keep ack/err/rty/stall low (stated in the property)")
     run.functions["amaranth_soc.wishbone.bus.Decoder.elaborate"] = "per-configuration (bounded: geometry, feature subsets, window sets), all inputs"
     run.functions["amaranth_soc.wishbone.bus.Decoder.add"] = "exercised (refusals counted); window ranges taken from bus.memory_map.windows()"
-    run_configs(run, __name__, cfgs, must_accept=True)      # every generated window set fits by construction
+    run_configs(run, __name__, cfgs, must_accept=must_accept)
     from . import patterns_l1
     patterns_l1.add_to(run)
     from . import busadd_l1
